@@ -82,6 +82,13 @@ def run(prop, tier, seed, work, ev):
     c = work.path("reval.cases")
     eng_eval.gen(work, "spell", c, inp=params)
     rejects += run_and_judge("evaluation engine: random sentences x random documents", c, "search", work, ev, drv)
+    for fam in ("compose", "nest", "hash", "alias"):
+        c = work.path("pool.%s.cases" % fam)
+        with open(c, "w") as f:
+            for line in open(eng_eval.POOLS):
+                if '"fam": "%s"' % fam in line:
+                    f.write(line)
+        rejects += run_and_judge("evaluation engine: " + eng_eval.POOL_LABEL[fam], c, "search", work, ev, drv, env={"EVAL_DOCS": eng_eval.POOLS + ".docs"})
     c = work.path("val.cases")
     eng_funcs.gen_call(work, "val", c, 3, 3)
     rejects += run_and_judge("function value domains", c, "search", work, ev, drv)
